@@ -324,3 +324,115 @@ T('c13-twin-cached-tell', 'C13', """                    pack_int_id = self._get_
 T('c13-twin-eq-else', 'C13', """                    if pack_int_id != last_pack_int_id:
                         # Break from the inner while loop. This will:""", """                    if not (pack_int_id == last_pack_int_id):
                         # Break from the inner while loop. This will:""")
+
+# ------------------------------------------------------------------------------------------------ C07
+M('c07-d2-no-upper-check', 'C07', """        if target > self._length:
+            raise ValueError('specified target would exceed the upper boundary of bytes that are accessible.')
+        new_pos = self._offset + target""", """        new_pos = self._offset + target""", 'C07.R1', U)
+M('c07-check-before-normalise', 'C07', """        if whence == 1:
+            target = self.tell() + target
+        elif whence == 2:
+            # Seek relative to the end
+            target = self._length + target
+
+        if target < 0:
+            raise ValueError('specified target would exceed the lower boundary of bytes that are accessible.')
+        if target > self._length:
+            raise ValueError('specified target would exceed the upper boundary of bytes that are accessible.')
+""", """        if target < 0 and whence == 0:
+            raise ValueError('specified target would exceed the lower boundary of bytes that are accessible.')
+        if target > self._length:
+            raise ValueError('specified target would exceed the upper boundary of bytes that are accessible.')
+        if whence == 1:
+            target = self.tell() + target
+        elif whence == 2:
+            # Seek relative to the end
+            target = self._length + target
+""", 'C07.R1', U)
+M('c07-return-relative', 'C07', """        elif whence == 2:
+            # Seek relative to the end
+            target = self._length + target
+""", """        elif whence == 2:
+            # Seek relative to the end
+            target = self.tell() + target
+""", 'C07.R2', U)
+M('c07-read-unbounded', 'C07', "        bytes_to_fetch = min(remaining_bytes, size)\n        stream = self._fhandle.read(bytes_to_fetch)", "        bytes_to_fetch = size\n        stream = self._fhandle.read(bytes_to_fetch)", 'C07.R3', U)
+M('c07-no-update-pos', 'C07', """        stream = self._fhandle.read(bytes_to_fetch)
+        self._update_pos()
+        return stream""", """        stream = self._fhandle.read(bytes_to_fetch)
+        return stream""", 'C07.R3', U)
+M('c07-whence-guard-dropped', 'C07', """        if whence not in [0, 1, 2]:
+            raise ValueError('Invalid value for `whence`: only 0, 1 and 2 are currently implemented.')
+""", "", 'C07.R4', U)
+M('c07-proxy-flag-read-only', 'C07', """    def tell(self) -> int:
+        \"\"\"Return current position in file.\"\"\"
+        if self._use_uncompressed_stream:""", """    def tell(self) -> int:
+        \"\"\"Return current position in file.\"\"\"
+        if False:""", 'C07.R5', U)
+M('c07-seed-b-buffer-not-reset', 'C07', """            self._decompressor = self.decompressobj_class()
+            self._internal_buffer = b''
+            self._pos = 0
+            return 0""", """            self._decompressor = self.decompressobj_class()
+            self._pos = 0
+            return 0""", 'C07.R6', U)
+M('c07-negative-after-reset', 'C07', """        if target < 0:
+            raise ValueError(f'negative seek position {target}')
+        if target == 0:""", """        if target == 0:""", 'C07.R5', U)
+T('c07-twin-reset-helper', 'C07', """            self._decompressor = self.decompressobj_class()
+            self._internal_buffer = b''
+            self._pos = 0
+            return 0""", """            self._pos = 0
+            self._internal_buffer = b''
+            self._decompressor = self.decompressobj_class()
+            return 0""", U)
+T('c07-twin-bounds-ge', 'C07', """        if target > self._length:
+            raise ValueError('specified target would exceed the upper boundary of bytes that are accessible.')
+        new_pos = self._offset + target""", """        if not target <= self._length:
+            raise ValueError('specified target would exceed the upper boundary of bytes that are accessible.')
+        new_pos = self._offset + target""", U)
+
+# ------------------------------------------------------------------------------------------------ C08
+M('c08-d5-revert', 'C08', """        self._close_operation_session()
+
+        # Let us initialise a session
+        session = self._get_operation_session()
+
+        # This variable stored""", """        # Let us initialise a session
+        session = self._get_operation_session()
+
+        # This variable stored""", 'C08.R2')
+M('c08-seed-a-conditional-refresh', 'C08', """        self._close_operation_session()
+
+        # Let us initialise a session
+        session = self._get_operation_session()
+
+        # This variable stored""", """        if loose_objects:
+            self._close_operation_session()
+
+        # Let us initialise a session
+        session = self._get_operation_session()
+
+        # This variable stored""", 'C08.R2')
+M('c08-count-before-listing', 'C08', """        # We get all objects that are loose, create a set
+        loose_objects = set(self._list_loose())
+""", """        self._close_operation_session()
+        _n = self._get_operation_session().scalar(select(func.count()).select_from(Obj))
+        # We get all objects that are loose, create a set
+        loose_objects = set(self._list_loose())
+""", 'C08.R2')
+M('c08-fallback-no-refresh', 'C08', """            # slow.
+            self._close_operation_session()
+
+            packs = defaultdict(list)""", """            # slow.
+
+            packs = defaultdict(list)""", 'C08.R1')
+M('c08-new-stale-view', 'C08', """    def get_lazy_loose_stream(self, hashkey: str) -> LazyLooseStream:""", """    def list_packed_objects(self):
+        return [r[0] for r in self._get_operation_session().execute(select(Obj.hashkey))]
+
+    def get_lazy_loose_stream(self, hashkey: str) -> LazyLooseStream:""", 'C08.R')
+T('c08-twin-refresh-before-listing', 'C08', """        loose_objects = set(self._list_loose())
+
+        # Force reload of the session: since we read in WAL mode""", """        self._close_operation_session()
+        loose_objects = set(self._list_loose())
+
+        # Force reload of the session: since we read in WAL mode""")
